@@ -86,6 +86,10 @@ def _case(draw):
         n = draw(st.sampled_from([12, 20, 8, 30, 5, 40] if spec["clf"]
                                  else [20, 10, 40, 5, 60]))
         case["stream"] = draw(R.rows(regime, d, n, n))
+        if name == "StreamProbabilisticAL" and draw(st.integers(0, 2)) == 0:
+            case["utility_weight"] = draw(st.lists(
+                st.sampled_from([0.5, 1.0, 2.0, 0.1]), min_size=n,
+                max_size=n))
     else:
         n = draw(st.sampled_from([20, 10, 40, 5, 60]))
         case["stream"] = draw(R.utilities(
@@ -132,9 +136,15 @@ class _Run:
             self.kw = dict(clf=clf, X=X, y=y, fit_clf=bool(case["fit_clf"]))
 
     def query(self, lo, hi):
+        kw = dict(self.kw)
+        uw = self.case.get("utility_weight")
+        if uw is not None:
+            # a per-instance weight (part of the stream, independent of the
+            # chunking)
+            kw["utility_weight"] = np.asarray(uw[lo:hi], dtype=float)
         return guarded(R.call_query, self.kind, self.name, self.obj,
                        self.stream[lo:hi].copy(), return_utilities=True,
-                       **self.kw)
+                       **kw)
 
     def update(self, lo, hi, q, u):
         return guarded(R.call_update, self.kind, self.name, self.obj,
